@@ -24,6 +24,8 @@ Python → Lean
   original has it : `originalElemOffset`. The definitions of these functions as they were before the fix commits
   b514cf6 / 5cddabe are kept with the suffix `PreFix`
 * `ArrayMemmapForwardReducer.__call__`'s choice (reuse the backing memmap / dump and memmap / pickle by value) : `forwardReduce`
+  (with `mmap_mode is None`, repair F58), and the identity-keyed reuse of the temporary dumps over a history of calls :
+  `dispatchStep`, `runHistory`
 Constants `NUMPY_ARRAY_ALIGNMENT_BYTES`, `BUFFER_SIZE` come from the regenerated table.
 
 numpy itself (`nditer`, `tobytes`, `frombuffer`, `memmap`, `as_strided`, `.flags`) is a parameter: the model
@@ -305,15 +307,62 @@ deriving DecidableEq, Repr, Inhabited
 
 /-- `get_memmapping_reducers` registers the reducer for the exact types `np.ndarray` and `np.memmap` only
 (`registeredType`; an `np.matrix` argument is pickled by value). Then `ArrayMemmapForwardReducer.__call__`:
-`if m is not None and isinstance(m, np.memmap): … ; if not a.dtype.hasobject and max_nbytes is not None
-and a.nbytes > max_nbytes: … else: NotImplemented`. -/
-def forwardReduce (registeredType backedByMemmap hasobject : Bool) (max_nbytes : Option Nat) (nbytes : Nat) :
-    Forward :=
+`if m is not None and isinstance(m, np.memmap): … ; if not a.dtype.hasobject and mmap_mode is not None and
+max_nbytes is not None and a.nbytes > max_nbytes: … else: NotImplemented`.
+`mmapModeNone` is `self._mmap_mode is None` (`Parallel(mmap_mode=None)`: "None will disable memmapping"): the model
+is the code WITH repair F58 (fixes/F58-mmap-mode-none-disables-memmapping.diff); before it the condition was
+absent, the array was dumped and `load_temporary_memmap(filename, None, …)` failed in the worker on
+`obj.filename` (`forwardReducePreF58`). -/
+def forwardReduce (registeredType backedByMemmap hasobject : Bool) (max_nbytes : Option Nat) (nbytes : Nat)
+    (mmapModeNone : Bool) : Forward :=
   if !registeredType then .plainPickle
   else if backedByMemmap then .reuseBacking
-  else if !hasobject && (match max_nbytes with
+  else if !hasobject && !mmapModeNone && (match max_nbytes with
       | none => false
       | some m => decide (nbytes > m)) then .dumpAndMemmap
   else .plainPickle
+
+/-- The decision as it was before repair F58: `mmap_mode` is not looked at. -/
+def forwardReducePreF58 (registeredType backedByMemmap hasobject : Bool) (max_nbytes : Option Nat) (nbytes : Nat)
+    (_mmapModeNone : Bool) : Forward :=
+  forwardReduce registeredType backedByMemmap hasobject max_nbytes nbytes false
+
+/-- What `load_temporary_memmap(filename, mmap_mode, …)` hands to the task for a dumped, object-free array:
+`_unpickle(…, mmap_mode=None)` returns a plain `ndarray`, and `JOBLIB_MMAPS.add(obj.filename)` raises
+`AttributeError` (the task cannot be un-serialised); any other mode returns an `np.memmap`. -/
+def loadTemporaryMemmapOk (mmapModeNone : Bool) : Bool := !mmapModeNone
+
+/-! ### The temporary dumps over a HISTORY of calls: `_memmaped_arrays` (a `_WeakArrayKeyMap`: object identity →
+basename) and `if not os.path.exists(filename): dump(a, filename)`
+
+One `Dispatch` = one array argument for which `forwardReduce` said `dumpAndMemmap`, reduced in the caller:
+* `ctx`  the temp folder in force (`TemporaryResourcesManager.resolve_temp_folder_name()`): ONE for all the calls
+         made inside `with Parallel(...) as p:`, a fresh one for every call of an unmanaged `Parallel`;
+* `obj`  the identity of the array OBJECT — a key of `_WeakArrayKeyMap`, which forgets an object when it dies, so
+         two objects that get the same `id()` one after the other are different `obj`;
+* `vals` the values the object holds at dispatch time.
+`TempFiles` are the dumps on disk: `(ctx, obj) ↦` the values that were dumped. The worker sees what is in the
+file. The model follows the code: the file is written once per (folder, object) and never again. -/
+
+structure Dispatch where
+  ctx : Nat
+  obj : Nat
+  vals : Nat
+deriving DecidableEq, Repr
+
+abbrev TempFiles := List ((Nat × Nat) × Nat)
+
+/-- `basename = _memmaped_arrays.get(a)` / new name; `filename = join(temp_folder, basename)`;
+`if not os.path.exists(filename): dump(a, filename)`; the worker loads `filename`. Returns the files afterwards and
+the values the task sees. -/
+def dispatchStep (fs : TempFiles) (d : Dispatch) : TempFiles × Nat :=
+  match fs.lookup (d.ctx, d.obj) with
+  | some v => (fs, v)
+  | none => (((d.ctx, d.obj), d.vals) :: fs, d.vals)
+
+/-- The values seen by the tasks over a history of dispatches, in order. -/
+def runHistory (fs : TempFiles) : List Dispatch → List Nat
+  | [] => []
+  | d :: rest => (dispatchStep fs d).2 :: runHistory (dispatchStep fs d).1 rest
 
 end JoblibModel.ArrayFormat
